@@ -59,7 +59,9 @@ def build(s):
         _, region, shape, spacing, adjust, centre, drop, unc = s
         return vd.BlockMean(spacing=spacing, region=region, adjust=adjust, center_coordinates=centre, uncertainty=unc, shape=shape, drop_coords=drop)
     if k == "chain":
-        return vd.Chain([(f"s{i}", build(x)) for i, x in enumerate(s[1])])
+        # step names are labels only: every third chain gives all its steps the same name (nothing requires unique names)
+        same = (len(s[1]) + len(repr(s[1]))) % 3 == 0
+        return vd.Chain([("step" if same else f"s{i}", build(x)) for i, x in enumerate(s[1])])
     if k == "vector":
         return vd.Vector([build(x) for x in s[1]])
     raise ValueError(k)
